@@ -16,9 +16,11 @@ from ..core.ddmin import ddmin
 
 ENGINE = 'faultsim'
 SEED_MAX = 24 * 1024
-K_OPS = 1024
-K_BYTES = 1024
-K_READ = 16
+# budgets in units of W = max(file size, 4096).  Measured on the unchanged tree (histogram probes in the evidence): no run
+# needs more than 4*W stream operations, 16*W bytes or a read request above W; the constants leave a factor 32 / 16 / 8.
+K_OPS = 128
+K_BYTES = 256
+K_READ = 8
 MAX_INDEXED = 4096
 K_MEM = 64                      # allocation bound: K_MEM * W + MEM_BASE bytes live at once (tracemalloc peak) ...
 MEM_BASE = 4 << 20              # ... MEM_BASE covers what opening any file costs (ELFStructs etc.: about 1.2 MB)
@@ -611,4 +613,4 @@ def extra_coverage(prop, tier, agg):
 
 def main(prop, tier, seed, budget):
     return runner.explore(__import__('dst.engines.faultsim', fromlist=['x']), prop, tier, seed,
-                          batch=256, budget_s=budget or (150 if tier == 'quick' else 1500), max_keys=8, task_timeout=120)
+                          batch=256, budget_s=budget or (300 if tier == 'quick' else 2400), max_keys=8, task_timeout=120)
